@@ -34,12 +34,14 @@ ASSUMPTIONS = ['D >= 0 on every face, alpha > 0, dt > 0, beta >= 0, faces increa
 
 def jobs(tier):
     out = [(c, tier) for c in MESH_CLASSES]
-    if tier != 'quick':
-        # thorough tier: concrete small grids (down to one cell per axis) with symbolic data
-        from ..model import DIM as _DIM
-        for c in MESH_CLASSES:
-            for sz in F.QUICK_SMALL_SIZES[_DIM[c]]:
-                out.append((c, tier, sz))
+    # concrete small grids (down to one cell per axis) with symbolic data: index collisions on one-cell axes (a repeated fancy
+    # index keeps the last update only) change the row sums there.  Quick tier: the 2-D / 3-D classes, where such axes are usual
+    from ..model import DIM as _DIM
+    for c in MESH_CLASSES:
+        if tier == 'quick' and _DIM[c] == 1:
+            continue
+        for sz in (F.QUICK_SMALL_SIZES[_DIM[c]] if tier == 'quick' else F.SMALL_SIZES[_DIM[c]][:5]):
+            out.append((c, tier, sz))
     return out
 
 
